@@ -126,6 +126,7 @@ func oracleC06(r *Result) ([]Violation, bool) {
 	end := r.EndT
 	// --- health intervals per instance
 	type life struct {
+		runs          []span        // running intervals: Start returned nil .. stop call / crash / cancelled Start context
 		startOK       time.Duration // first successful Start return
 		unhealthyFrom time.Duration // stop call / crash (first), or -1
 		cuts          []span        // partition windows (to = -1: never healed)
@@ -144,12 +145,26 @@ func oracleC06(r *Result) ([]Violation, bool) {
 			continue
 		}
 		switch {
-		case e.K == "api.ret" && strings.HasPrefix(e.S, "start:") && e.S2 == "nil" && l.startOK < 0:
-			l.startOK = e.T
-		case e.K == "api.call" && strings.HasPrefix(e.S, "stop") && l.unhealthyFrom < 0:
-			l.unhealthyFrom = e.T
+		case e.K == "api.ret" && strings.HasPrefix(e.S, "start:") && e.S2 == "nil":
+			if l.startOK < 0 {
+				l.startOK = e.T
+			}
+			if n := len(l.runs); n == 0 || l.runs[n-1].to >= 0 {
+				l.runs = append(l.runs, span{e.T, -1})
+			}
+		case e.K == "api.call" && (strings.HasPrefix(e.S, "stop") || strings.HasPrefix(e.S, "cancelctx")):
+			// a stop call, or the end of the run through the context passed to Start
+			if n := len(l.runs); n > 0 && l.runs[n-1].to < 0 {
+				l.runs[n-1].to = e.T
+			}
+			if strings.HasPrefix(e.S, "stop") && l.unhealthyFrom < 0 {
+				l.unhealthyFrom = e.T
+			}
 		case e.K == "crash" && l.unhealthyFrom < 0:
 			l.unhealthyFrom = e.T
+			if n := len(l.runs); n > 0 && l.runs[n-1].to < 0 {
+				l.runs[n-1].to = e.T
+			}
 		case e.K == "partition":
 			l.cuts = append(l.cuts, span{e.T, -1})
 		case e.K == "heal":
@@ -170,7 +185,18 @@ func oracleC06(r *Result) ([]Violation, bool) {
 	// at the heal time (returned as recovery).
 	healthyThrough := func(id string, a, b time.Duration) (bool, time.Duration) {
 		l := lives[id]
-		if l == nil || l.startOK < 0 || l.startOK > a || (l.unhealthyFrom >= 0 && l.unhealthyFrom <= b) {
+		if l == nil {
+			return false, 0
+		}
+		// one run of the instance covers the whole interval (an instance that is started,
+		// or started again, only after the vacancy began is not counted: conservative)
+		covered := false
+		for _, rn := range l.runs {
+			if rn.from <= a && (rn.to < 0 || rn.to > b) {
+				covered = true
+			}
+		}
+		if !covered {
 			return false, 0
 		}
 		var rec time.Duration
